@@ -176,6 +176,7 @@ struct Sec {
     entries: Vec<Entry>,
     comments: Vec<Vec<u8>>,
     raw: Vec<String>, // the exact events, for the frame comparison
+    legacy: bool,     // `[a.b]` header: git lower-cases such a subsection, gix-config keeps it (documented in gix-config's lib.rs)
 }
 #[derive(Clone, Debug, PartialEq, Eq)]
 struct Conf {
@@ -238,6 +239,7 @@ fn read(text: &[u8]) -> Option<Conf> {
             entries: Vec::new(),
             comments: Vec::new(),
             raw: strip_trailing_newlines(sct.events.iter().map(raw_event).collect()),
+            legacy: sct.header.is_legacy(),
         };
         let mut cur: Option<(Vec<u8>, bool, Vec<u8>)> = None; // key, saw separator, partial value
         for e in sct.events.iter() {
@@ -328,7 +330,7 @@ fn expect(c: &Conf, o: &Op) -> Expect {
                     if !valid_name(&o.sec) || !valid_sub(&o.sub) {
                         return ex(n, None, false, false, "eheader", None);
                     }
-                    n.secs.push(Sec { name: o.sec.clone(), sub: o.sub.clone(), entries: vec![], comments: vec![], raw: vec![] });
+                    n.secs.push(Sec { name: o.sec.clone(), sub: o.sub.clone(), entries: vec![], comments: vec![], raw: vec![], legacy: false });
                     appended = true;
                     n.secs.len() - 1
                 }
@@ -391,7 +393,7 @@ fn expect(c: &Conf, o: &Op) -> Expect {
             if !valid_name(&o.sec) || !valid_sub(&o.sub) {
                 return ex(n, None, false, false, "eheader", None);
             }
-            n.secs.push(Sec { name: o.sec.clone(), sub: o.sub.clone(), entries: vec![], comments: vec![], raw: vec![] });
+            n.secs.push(Sec { name: o.sec.clone(), sub: o.sub.clone(), entries: vec![], comments: vec![], raw: vec![], legacy: false });
             let known = if o.sec.is_empty() { Some("empty-section-name") } else { None };
             ex(n, None, false, true, "ok", known)
         }
@@ -484,7 +486,11 @@ fn flat(c: &Conf) -> Vec<(Vec<u8>, Option<Vec<u8>>)> {
             let mut k = sct.name.to_ascii_lowercase();
             if let Some(sub) = &sct.sub {
                 k.push(b'.');
-                k.extend_from_slice(sub);
+                if sct.legacy {
+                    k.extend_from_slice(&sub.to_ascii_lowercase());
+                } else {
+                    k.extend_from_slice(sub);
+                }
             }
             k.push(b'.');
             k.extend_from_slice(&e.key.to_ascii_lowercase());
